@@ -2,7 +2,10 @@ package main
 
 // Type-directed generator of worlds (mostly valid inputs; the malformed stream is separate).
 
-import "fmt"
+import (
+	"fmt"
+	"strings"
+)
 
 type genCfg struct {
 	anp, banp      bool // admin policies allowed
@@ -11,6 +14,15 @@ type genCfg struct {
 	namedOnIPPct   int  // probability (pct) to allow a named port where it may meet an IP destination
 	maxNP, maxWl   int
 	conflictChance int
+	icName         bool // workloads named ingress-controller / names that are suffixes of other names
+	icNs           bool // the namespace ingress-controller-ns may hold objects
+	sameName       bool // several workloads (of different kinds) may share one name in a namespace
+}
+
+// nameUse: what already carries a workload name in a namespace
+type nameUse struct {
+	kinds  map[string]bool
+	labels []KV
 }
 
 var nsPool = []string{"ns0", "ns1", "ns2", "default"}
@@ -295,6 +307,9 @@ func genWorld(r *Rng, cfg *genCfg) *World {
 	nss := append([]string{}, nsPool...)
 	Shuffle(r, nss)
 	nss = nss[:nNs]
+	if cfg.icNs && r.P(20) {
+		nss = append(nss, "ingress-controller-ns") // the namespace of the fake ingress-controller pod: policies there select it
+	}
 	for _, ns := range nss {
 		if r.P(60) {
 			o := &NsObj{Name: ns, Labels: genLabels(r, nsLblKeys, nsLblVals, 2)}
@@ -305,38 +320,69 @@ func genWorld(r *Rng, cfg *genCfg) *World {
 		}
 	}
 	nWl := r.Range(1, cfg.maxWl)
-	usedNames := map[string]bool{}
+	usedNames := map[string]*nameUse{}
 	for i := 0; i < nWl; i++ {
 		ns := Pick(r, nss)
 		name := fmt.Sprintf("w%d", r.Intn(cfg.maxWl+1))
-		if usedNames[ns+"/"+name] {
-			continue
+		if cfg.icName && r.P(12) {
+			name = "ingress-controller" // a real workload with the name of the fake ingress-controller pod
+		} else if cfg.icName && r.P(10) {
+			name = "x" + name // a name with another workload's name as a proper suffix
 		}
-		usedNames[ns+"/"+name] = true
 		labels := genLabels(r, lblKeys, lblVals, 3)
+		prev, used := usedNames[ns+"/"+name]
+		if used {
+			// mostly unique names; sometimes a second workload of another kind (Pod + Deployment, ReplicaSet-owned pods + Job,
+			// Deployment + StatefulSet ...) with the same name in the same namespace - legal in Kubernetes
+			if !cfg.sameName || !r.P(40) {
+				continue
+			}
+			if r.P(70) {
+				labels = prev.labels // same labels: the owner-consistency check keys by (namespace, owner name) only
+			}
+		} else {
+			prev = &nameUse{kinds: map[string]bool{}}
+			usedNames[ns+"/"+name] = prev
+		}
+		prev.labels = labels
 		ports := genCPorts(r)
 		candPod = append(candPod, labels)
 		if cfg.pods && r.P(25) {
 			// bare pods, possibly several sharing one controller owner
 			n := 1
 			owner := ""
-			okind := ""
+			okind := "Pod"
 			if r.P(60) {
 				owner = name
 				okind = Pick(r, []string{"ReplicaSet", "StatefulSet", "Job", "DaemonSet"})
 				n = r.Range(1, 3)
 			}
+			if prev.kinds[okind] {
+				continue // the same workload twice (pod names are unique in a namespace)
+			}
+			prev.kinds[okind] = true
 			for j := 0; j < n; j++ {
 				pn := name
 				if owner != "" {
 					pn = fmt.Sprintf("%s-p%d", name, j)
+					if used {
+						pn = fmt.Sprintf("%s-%sp%d", name, strings.ToLower(okind[:2]), j)
+					}
 				}
-				w.Objs = append(w.Objs, Obj{Kind: "pod", Pod: &PodObj{NS: ns, Name: pn, Labels: labels, Ports: ports, OwnerKind: okind, OwnerName: owner,
+				ok := okind
+				if owner == "" {
+					ok = ""
+				}
+				w.Objs = append(w.Objs, Obj{Kind: "pod", Pod: &PodObj{NS: ns, Name: pn, Labels: labels, Ports: ports, OwnerKind: ok, OwnerName: owner,
 					HostIP: Pick(r, []string{"192.168.49.2", "10.1.2.3", "172.18.0.4"})}})
 			}
 			continue
 		}
 		wl := &Workload{Kind: Pick(r, wlKinds), NS: ns, Name: name, Labels: labels, Ports: ports}
+		if prev.kinds[wl.Kind] {
+			continue
+		}
+		prev.kinds[wl.Kind] = true
 		if r.P(60) {
 			n := r.Intn(4)
 			wl.Replicas = &n
@@ -426,7 +472,7 @@ func genIngressObjs(r *Rng, w *World, nss []string) {
 			}
 			usedNum[sp.Port] = true
 			if r.P(60) {
-				nm := Pick(r, []string{"web", "api", "http", "dns"})
+				nm := Pick(r, []string{"web", "x", "http", "dns"}) // overlaps the container port names: a targetPort name may equal another port's name
 				if !usedName[nm] {
 					usedName[nm] = true
 					sp.Name = nm
@@ -478,7 +524,10 @@ func genIngressObjs(r *Rng, w *World, nss []string) {
 			}
 			b.PortNum = &n
 		default:
-			nm := Pick(r, []string{"web", "nosuch"})
+			nm := Pick(r, []string{"web", "nosuch", "http", "x"})
+			if tp := Pick(r, sv.ports).TargetName; tp != nil && r.P(50) {
+				nm = *tp // a name that is (maybe) only the targetPort name of some port of the service
+			}
 			b.PortName = &nm
 		}
 		if r.P(8) {
